@@ -77,3 +77,18 @@ pub fn token_config_update(
 pub fn store_update_last_restarted_slot(store: &mut Store, update: bool) -> Result<u64> {
     store.update_last_restarted_slot(update)
 }
+
+/// See `GtExchangeVault::init`.
+pub fn gt_exchange_vault_init(vault: &mut GtExchangeVault, bump: u8, store: &Pubkey, time_window: u32) -> Result<()> {
+    vault.init(bump, store, time_window)
+}
+
+/// See `GtExchange::init`.
+pub fn gt_exchange_init(exchange: &mut GtExchange, bump: u8, owner: &Pubkey, store: &Pubkey, vault: &Pubkey) -> Result<()> {
+    exchange.init(bump, owner, store, vault)
+}
+
+/// See `GtState::unchecked_confirm_exchange_vault`.
+pub fn gt_confirm_exchange_vault(gt: &mut GtState, vault: &mut GtExchangeVault) -> Result<u64> {
+    gt.unchecked_confirm_exchange_vault(vault)
+}
